@@ -5,7 +5,7 @@ import ast
 
 from .. import AnalysisError
 from ..flow import show, walk_term
-from ..report import ob_ok, ob_fail
+from ..report import ob_ok, ob_fail, ob_undecided
 from .common import (is_call, method_call, node_attr, edge_attr, elem_of, strip_wrappers, guards_of, enclosing_loops, need)
 
 SELF = ("param", "self")
@@ -542,4 +542,181 @@ def det_shared_state(repo, roots, oid="DET.shared-state", tier="quick"):
                              reason="no class-level or module-level container is mutated, no global is rebound, nothing is memoised"))
     if n_funcs < 8:
         raise AnalysisError("shared-state scan reached only %d functions (floor 8)" % n_funcs)
+    return obs
+
+
+# ---------------------------------------------------------------------------
+# SENT.numeric-attribute: numeric annotations are never tested for truth
+# ---------------------------------------------------------------------------
+NUMERIC_KEYS = {"weight", "charge", "w", "q", "order", "hcount", "mass"}
+SENT_MODULES = ("resolve", "read_cgsmiles", "read_fragments", "sample", "graph_utils", "write_cgsmiles", "cgsmiles_utils", "pysmiles_utils",
+                "dialects", "coordinates", "rdkit")
+
+
+def sent_numeric_attrs(repo, tier="quick"):
+    """A value read from a graph under a numeric annotation key (weight, charge, order, hcount ...) is never
+    used as a condition: 0 / 0.0 are legitimate values and must not be treated as 'missing'."""
+    obs = []
+    oid = "SENT.numeric-attribute"
+    n_tests = 0
+    for mname in SENT_MODULES:
+        m = repo.module(mname)
+        for fi in m.functions.values():
+            fl, cfg = fi.flow, fi.cfg
+            bad = []
+            for sub in ast.walk(fi.node):
+                tested = []
+                if isinstance(sub, (ast.If, ast.While, ast.IfExp, ast.Assert)):
+                    tested = _truth_tested(sub.test)
+                elif isinstance(sub, ast.BoolOp):
+                    for v in sub.values[:-1]:
+                        tested += _truth_tested(v)
+                elif isinstance(sub, ast.UnaryOp) and isinstance(sub.op, ast.Not):
+                    tested = _truth_tested(sub.operand)
+                elif isinstance(sub, ast.comprehension):
+                    for c in sub.ifs:
+                        tested += _truth_tested(c)
+                for e in tested:
+                    if id(e) not in cfg.owner or any(e is b for b in bad):
+                        continue
+                    n_tests += 1
+                    try:
+                        t = fl.canon(e, cfg.owner[id(e)])
+                    except Exception:
+                        continue
+                    cands = [t]
+                    if t[0] == "var":
+                        cands = [fl._apply_path(fl.canon(d.value, d.node), d.path) for d in [fl.defs[i] for i in t[2]] if d.kind == "assign"]
+                    for c in cands:
+                        key = None
+                        if c[0] == "sub" and c[2][0] == "const":
+                            key = c[2][1]
+                        mg = method_call(c, "get")
+                        if mg and mg[2] and mg[2][0][0] == "const":
+                            key = mg[2][0][1]
+                        if key in NUMERIC_KEYS:
+                            bad.append(e)
+                            break
+            for e in bad:
+                obs.append(ob_fail(oid, fi, e, construct="truth test on %s" % ast.unparse(e), instance=fi.qualname,
+                                   reason="a numeric annotation is tested for truth: the legitimate value 0 is treated like a missing one"))
+            if not bad:
+                obs.append(ob_ok(oid, fi, construct="no truth test on a numeric annotation", instance=fi.qualname, reason="0 / 0.0 are handled as values"))
+    if n_tests < 40:
+        raise AnalysisError("truth-test scan saw only %d tested expressions (floor 40)" % n_tests)
+    return obs
+
+
+def early_exit(loop_ast):
+    """break / return statements lexically inside the loop (not inside a nested loop for break)."""
+    out = []
+
+    def walk(stmts, depth):
+        for st in stmts:
+            if isinstance(st, ast.Return):
+                out.append(st)
+            elif isinstance(st, ast.Break) and depth == 0:
+                out.append(st)
+            elif isinstance(st, (ast.For, ast.While)):
+                walk(st.body, depth + 1)
+                walk(st.orelse, depth)
+            elif isinstance(st, ast.If):
+                walk(st.body, depth)
+                walk(st.orelse, depth)
+            elif isinstance(st, ast.Try):
+                walk(st.body, depth)
+                for h in st.handlers:
+                    walk(h.body, depth)
+                walk(st.orelse, depth)
+                walk(st.finalbody, depth)
+            elif isinstance(st, ast.With):
+                walk(st.body, depth)
+    walk(loop_ast.body, 0)
+    return out
+
+
+COMPLETE_LOOPS = [
+    # (function, description of the loop's iterable as substring of show(canon(iter)), what must be complete)
+    ("graph_utils:merge_graphs", "target_graph.nodes", "every template node is copied"),
+    ("graph_utils:merge_graphs", "target_graph.edges", "every template bond is copied"),
+    ("resolve:MoleculeResolver.resolve_disconnected_molecule", "self.meta_graph.nodes", "every coarse node is instantiated"),
+    ("resolve:MoleculeResolver.edges_from_bonding_descrpt", "self.meta_graph.edges", "every base-graph edge is served"),
+    ("resolve:MoleculeResolver.squash_atoms", "get_edge_attributes", "every '!' bond is contracted"),
+    ("graph_utils:annotate_fragments", "meta_graph.nodes", "every coarse node gets its per-node graph"),
+    ("graph_utils:annotate_fragments", "get_node_attributes(molecule, 'fragid')", "every fine node is filed"),
+    ("pysmiles_utils:rebuild_h_atoms", "mol_graph.nodes", "every hydrogen inherits its attributes"),
+    ("resolve:MoleculeResolver.read_fragment_strings", "fragment_strings", "every fragment level is read"),
+    ("read_fragments:read_fragments", "fragment_iter", "every fragment definition is read"),
+    ("cgsmiles_utils:find_open_bonds", "get_node_attributes(molecule, 'bonding')", "every open descriptor is indexed"),
+]
+
+
+def ord_complete_loops(repo, tier="quick"):
+    """Loops that have to visit every element of their collection contain no break / return."""
+    obs = []
+    oid = "ORD.complete-loops"
+    for fq, needle, what in COMPLETE_LOOPS:
+        fi = repo.function(fq)
+        fl, cfg = fi.flow, fi.cfg
+        found = False
+        for n in cfg.nodes:
+            if n.kind != "for":
+                continue
+            it = show(fl.canon(n.ast.iter, n.id))
+            if needle in it:
+                found = True
+                ex = early_exit(n.ast)
+                (obs.append(ob_fail(oid, fi, ex[0], construct="%s inside `for ... in %s`" % (type(ex[0]).__name__.lower(), needle), instance=fi.qualname + ":" + needle,
+                                    reason="the loop can stop before all elements were visited, but %s" % what)) if ex else
+                 obs.append(ob_ok(oid, fi, n.ast, construct="for ... in %s: no break / return" % needle, instance=fi.qualname + ":" + needle, reason=what)))
+        if not found:
+            obs.append(ob_undecided(oid, fi, construct="loop over %s" % needle, instance=fi.qualname + ":" + needle, reason="loop not found (rewritten?)"))
+    return obs
+
+
+def sent_anchor_key(repo, tier="quick"):
+    """C05: a variable that holds either None or a node key (the anchor of the previous branch recipe) is
+    compared with `is None` / `is not None`; node key 0 (the first node of the string) is falsy."""
+    fi = repo.function("read_cgsmiles:read_cgsmiles")
+    fl, cfg = fi.flow, fi.cfg
+    obs = []
+    oid = "SENT.anchor-key"
+    # variables assigned from the key of `for key, value in <recipes>.items()` that also have a None definition
+    cands = {}
+    for d in fl.defs:
+        if d.kind != "assign" or d.path:
+            continue
+        v = fl.canon(d.value, d.node)
+        e = elem_of(v)
+        if e and e[0] == "key":
+            cands.setdefault(d.var, []).append(d)
+    found = 0
+    for var, ds in cands.items():
+        nones = [d for d in fl.defs if d.var == var and d.kind == "assign" and isinstance(d.value, ast.Constant) and d.value.value is None]
+        if not nones:
+            continue
+        for sub in ast.walk(fi.node):
+            tests = []
+            if isinstance(sub, (ast.If, ast.While, ast.IfExp)):
+                tests = _truth_tested(sub.test)
+            elif isinstance(sub, ast.UnaryOp) and isinstance(sub.op, ast.Not):
+                tests = _truth_tested(sub.operand)
+            elif isinstance(sub, ast.BoolOp):
+                for vv in sub.values[:-1]:
+                    tests += _truth_tested(vv)
+            for t in tests:
+                if isinstance(t, ast.Name) and t.id == var:
+                    found += 1
+                    obs.append(ob_fail(oid, fi, t, construct="truth test on %s (None or a node key)" % var, instance=var,
+                                       reason="node key 0 is falsy: a branch anchored at the first node of the string is treated as 'no previous anchor'"))
+        # is None / is not None uses
+        n_is = 0
+        for sub in ast.walk(fi.node):
+            if isinstance(sub, ast.Compare) and isinstance(sub.left, ast.Name) and sub.left.id == var and isinstance(sub.ops[0], (ast.Is, ast.IsNot)):
+                n_is += 1
+        if not any((not o.ok) and o.instance == var for o in obs):
+            obs.append(ob_ok(oid, fi, ds[0].ast, construct="%s is tested with `is None` / `is not None` (%d tests)" % (var, n_is), instance=var,
+                             reason="anchor key 0 is handled like every other key"))
+    if not obs:
+        raise AnalysisError("anchor-key scan found no variable holding (None | recipe anchor key) in read_cgsmiles", fi.where())
     return obs
